@@ -8,7 +8,7 @@ from pyvc.ops import to_term, from_term
 from pyvc.ghostdb import PAIR
 from pyvc import sqltext, ops
 
-from contracts.classes import CapRow, RP, ALLOC
+from contracts.classes import CapRow, RP, ALLOC, CONSUMER
 
 UKEY = ('tuple', ('str', 'int'))       # (provider uuid, class id)
 Q = '_check_capacity_exceeded'
@@ -299,3 +299,256 @@ LOOPS = {
 }
 
 SELECTS = {Q: capacity_select}
+
+
+# ===========================================================================
+# callee contract of _check_capacity_exceeded (proved against its body by
+# props/C01.py:script_check; callers use only this)
+
+def check_requires(I, allocs):
+    """Precondition: list of formulas over the allocation list."""
+    n = allocs.len
+    j, j2 = z3.Ints('j!pre j2!pre')
+    rpid, uuid, rc, used = alloc_terms(I, allocs, j)
+    rpid2, uuid2, rc2, used2 = alloc_terms(I, allocs, j2)
+    rp = z3.Select(I.fld(ALLOC, 'resource_provider'), z3.Select(allocs.arr, j))
+    rpt = I.db.tables['resource_providers']
+    pre = z3.And(
+        used >= 0,
+        z3.Not(z3.Select(I.fld_none(RP, 'id'), rp)),
+        z3.Not(z3.Select(I.fld_none(RP, 'uuid'), rp)),
+        # R6: the uuid of a surviving provider id never changes
+        z3.Implies(z3.Select(rpt.exists, rpid),
+                   z3.Select(rpt.data['uuid'], rpid) == uuid))
+    return [
+        ops.forall([j], z3.Implies(z3.And(j >= 0, j < n), pre),
+                   patterns=[z3.Select(allocs.arr, j)]),
+        # provider objects are consistent: same uuid <=> same id
+        ops.forall([j, j2], z3.Implies(
+            z3.And(j >= 0, j < n, j2 >= 0, j2 < n),
+            (uuid == uuid2) == (rpid == rpid2)),
+            patterns=[z3.MultiPattern(z3.Select(allocs.arr, j),
+                                      z3.Select(allocs.arr, j2))]),
+    ]
+
+
+def check_ensures(I, allocs, res):
+    """Postcondition on normal return: dict name -> formula."""
+    db = I.db
+    n = allocs.len
+    psum, ppos = psum_fns(I)
+    ps = sort_of(PAIR)
+    k = z3.Const('k!post', ps)
+    j = z3.Int('j!post')
+    rpid, uuid, rc, used = alloc_terms(I, allocs, j)
+    inv = db.tables['inventories']
+    return {
+        'capacity': ops.forall([k], z3.Implies(
+            ppos(n, k), z3.And(z3.Select(inv.exists, k),
+                               capacity_ok(db, k, psum(n, k)))),
+            patterns=[ppos(n, k)]),
+        'units': ops.forall([j], z3.Implies(
+            z3.And(j >= 0, j < n, used > 0),
+            z3.And(z3.Select(inv.exists, ps.mk(rpid, rc)),
+                   units_ok(db, ps.mk(rpid, rc), used))),
+            patterns=[z3.Select(allocs.arr, j)]),
+        'providers': ops.forall([j], z3.Implies(
+            z3.And(j >= 0, j < n),
+            z3.And(z3.Select(res.dom, uuid),
+                   z3.Select(I.fld(RP, 'uuid'),
+                             z3.Select(res.val, uuid)) == uuid)),
+            patterns=[z3.Select(allocs.arr, j)]),
+        'providers_from_allocs': _providers_from_allocs(I, allocs, res, n),
+        'psum': ops.forall([k], z3.And(psum(n, k) >= 0,
+                                       ppos(n, k) == (psum(n, k) > 0)),
+                           patterns=[psum(n, k)]),
+    }
+
+
+def _providers_from_allocs(I, allocs, res, n):
+    u = z3.Const('u!pfa', StrSort)
+    w = z3.Int('w!pfa')
+    aw = z3.Select(allocs.arr, w)
+    return ops.forall([u], z3.Implies(
+        z3.Select(res.dom, u),
+        z3.Exists([w], z3.And(
+            w >= 0, w < n,
+            z3.Select(res.val, u) ==
+            z3.Select(I.fld(ALLOC, 'resource_provider'), aw),
+            z3.Select(I.fld(RP, 'uuid'), z3.Select(res.val, u)) == u))),
+        patterns=[z3.Select(res.dom, u)])
+
+
+def check_capacity_contract(I, args, kwargs):
+    """Stub used at call sites of _check_capacity_exceeded."""
+    from placement import exception
+    ctx, allocs = args[0], args[1]
+    if not isinstance(allocs, SList):
+        raise Undecided('_check_capacity_exceeded called with %r' % (allocs,))
+    for k, f in enumerate(check_requires(I, allocs)):
+        I.ex.oblige('C01.check.requires.%d' % k, f, 'A')
+    # exceptional exits: database untouched
+    which = I.ex.choose(3, tag='check_capacity')
+    if which == 1:
+        I.raise_(exception.InvalidInventory)
+    if which == 2:
+        I.raise_(exception.ResourceClassNotFound)
+    res = I.fresh_map('visited_rps', 'str', ('obj', RP))
+    for name, f in check_ensures(I, allocs, res).items():
+        I.ex.hyp(f)
+    for f in psum_base_axioms(I):
+        I.ex.hyp(f)
+    I.ghost['check.allocs'] = allocs
+    return res
+
+
+# ===========================================================================
+# _set_allocations
+SQ = '_set_allocations'
+
+
+def set_loop1_entry(I, frame, seq):
+    I.ghost['set.usage0'] = I.db.usage
+    I.ghost['set.held0'] = I.db.held
+    I.ghost['set.total_held0'] = I.db.total_held
+    I.ghost['set.db0'] = I.db.snapshot()
+    I.ghost['set.dsum'] = z3.Function(I.ex.fresh_name('dsum'), z3.IntSort(),
+                                      sort_of(PAIR), z3.IntSort())
+
+
+def set_loop1_invariant(I, frame, i, seq):
+    """Deleting the previous rows of the consumers e_0 .. e_{n-1} (an
+    enumeration without repetition of consumer_ids):
+    usage = usage0 - dsum(i), held / total_held zeroed for e_j, j < i."""
+    from pyvc.ghostdb import HELD_KEY
+    db = I.db
+    usage0, held0, th0 = (I.ghost['set.usage0'], I.ghost['set.held0'],
+                          I.ghost['set.total_held0'])
+    dsum = I.ghost['set.dsum']
+    cset = seq.origin
+    p = z3.Const('p!sl1', sort_of(PAIR))
+    hs = sort_of(HELD_KEY)
+    h = z3.Const('h!sl1', hs)
+    c = z3.Const('c!sl1', StrSort)
+    done = lambda x: z3.And(z3.Select(cset.arr, x), seq.idx(x) < i)
+    return [
+        ops.forall([p], z3.Select(db.usage, p) ==
+                   z3.Select(usage0, p) - dsum(i, p),
+                   patterns=[z3.Select(db.usage, p)]),
+        ops.forall([h], z3.Select(db.held, h) ==
+                   z3.If(done(hs.accessor(0, 0)(h)), 0, z3.Select(held0, h)),
+                   patterns=[z3.Select(db.held, h)]),
+        ops.forall([c], z3.Select(db.total_held, c) ==
+                   z3.If(done(c), 0, z3.Select(th0, c)),
+                   patterns=[z3.Select(db.total_held, c)]),
+    ]
+
+
+def set_loop1_lemmas(I, frame, i, seq):
+    """Definition of dsum and the A-sum lemma: the rows of distinct consumers
+    on one (provider, class) never add up to more than its usage."""
+    from pyvc.ghostdb import HELD_KEY
+    usage0, held0 = I.ghost['set.usage0'], I.ghost['set.held0']
+    dsum = I.ghost['set.dsum']
+    ps, hs = sort_of(PAIR), sort_of(HELD_KEY)
+    p = z3.Const('p!dsum', ps)
+    hk = hs.mk(seq.at(i), ps.accessor(0, 0)(p), ps.accessor(0, 1)(p))
+    out = [
+        ops.forall([p], dsum(0, p) == 0, patterns=[dsum(0, p)]),
+        ops.forall([p], dsum(i + 1, p) == dsum(i, p) + z3.Select(held0, hk),
+                   patterns=[dsum(i + 1, p)]),
+    ]
+    for t in (i, i + 1):
+        out.append(ops.forall([p], z3.And(dsum(t, p) >= 0,
+                                          dsum(t, p) <= z3.Select(usage0, p)),
+                              patterns=[dsum(t, p)]))
+    return out
+
+
+def set_loop2_entry(I, frame, seq):
+    I.ghost['set.usage_d'] = I.db.usage
+    I.ghost['set.total_held_d'] = I.db.total_held
+
+
+def set_loop2_invariant(I, frame, i, seq):
+    """Inserting the positive amounts: usage = usage after the deletes +
+    prefix sum of the request."""
+    db = I.db
+    allocs = seq.origin
+    psum, ppos = psum_fns(I)
+    usage_d = I.ghost['set.usage_d']
+    k = z3.Const('k!sl2', sort_of(PAIR))
+    out = [ops.forall([k], z3.Select(db.usage, k) ==
+                      z3.Select(usage_d, k) + psum(i, k),
+                      patterns=[z3.Select(db.usage, k)])]
+    vc = frame.locals['visited_consumers']
+    j = z3.Int('j!sl2')
+    a = z3.Select(allocs.arr, j)
+    cons = z3.Select(I.fld(ALLOC, 'consumer'), a)
+    cid = z3.Select(I.fld('Consumer', 'id'), cons)
+    out.append(ops.forall([j], z3.Implies(
+        z3.And(j >= 0, j < i), z3.Select(vc.dom, cid)),
+        patterns=[z3.Select(allocs.arr, j)]))
+    c = z3.Int('c!sl2')
+    w = z3.Int('w!sl2')
+    aw = z3.Select(allocs.arr, w)
+    out.append(ops.forall([c], z3.Implies(
+        z3.Select(vc.dom, c),
+        z3.Exists([w], z3.And(
+            w >= 0, w < i,
+            z3.Select(vc.val, c) == z3.Select(I.fld(ALLOC, 'consumer'), aw),
+            z3.Select(I.fld('Consumer', 'id'), z3.Select(vc.val, c)) == c))),
+        patterns=[z3.Select(vc.dom, c)]))
+    return out
+
+
+def set_loop2_lemmas(I, frame, i, seq):
+    return psum_step_axioms(I, seq.origin, i) + psum_base_axioms(I)
+
+
+SET_HAVOC_TYPES = {
+    (SQ, 'visited_consumers'): ('map', 'int', ('obj', CONSUMER)),
+}
+
+SET_LOOPS = {
+    (SQ, 1): LoopSpec(invariant=set_loop1_invariant, on_entry=set_loop1_entry,
+                      lemmas=set_loop1_lemmas,
+                      name='C01.set.delete', keep=('allocs', 'context'),
+                      modifies_db=('allocations', 'aggregates')),
+    (SQ, 2): LoopSpec(invariant=set_loop2_invariant, on_entry=set_loop2_entry,
+                      lemmas=set_loop2_lemmas, name='C01.set.insert',
+                      keep=('allocs', 'context', 'visited_rps'),
+                      modifies_db=('allocations', 'aggregates'),
+                      modifies_fields=(('Allocation', 'id'),)),
+    (SQ, 3): LoopSpec(name='C01.set.rpgen', keep=('allocs', 'context'),
+                      modifies_db=('resource_providers',),
+                      modifies_fields=(('ResourceProvider', 'generation', 'keepnull'),)),
+    (SQ, 4): LoopSpec(name='C01.set.consgen', keep=('allocs', 'context'),
+                      modifies_db=('consumers',),
+                      modifies_fields=(('Consumer', 'generation', 'keepnull'),)),
+}
+
+
+def delete_consumers_if_no_allocations_contract(I, args, kwargs):
+    """Callee contract (proved in C12): removes exactly the consumers of the
+    given set that hold no allocation; touches only the consumers table."""
+    from contracts import lib
+    t = lib.current_txn(I)
+    I.ex.oblige('typestate.write_in_writer_txn',
+                t is not None and t['mode'] == 'writer', 'A',
+                {'table': 'consumers'})
+    uuids = args[1]
+    db = I.db
+    cons = db.tables['consumers']
+    new = cons.clone()
+    k = z3.Int('k!dcna')
+    member = db.member(z3.Select(cons.data['uuid'], k), 'str', uuids) \
+        if not isinstance(uuids, (list, tuple)) else z3.BoolVal(False)
+    new.exists = z3.Lambda([k], z3.And(
+        z3.Select(cons.exists, k),
+        z3.Not(z3.And(member, z3.Select(db.total_held,
+                                        z3.Select(cons.data['uuid'], k)) == 0))))
+    db.tables['consumers'] = new
+    db.writes.append(('consumers', 'delete', ()))
+    I.event('db.write', 'consumers', 'delete', ())
+    return None
